@@ -74,16 +74,20 @@ def run(pid, tier):
     errors = [r.get('error') for r in res]
     # canaries: corrupted outcomes of documents the code handled
     cans = []
-    b = next(r for r in recs if r['fam'] == 'windows' and r['act']['codes'] == ['E1103']
-             and [(w['n'], w['s'] > w['e'] >= 0) for w in r['doc']['jobs'][0]['tasks'][0]['places'][0]['ws']] == [(2, True)])
-    c = copy.deepcopy(b); c['act'] = {'status': 'ok', 'codes': []}; cans.append((c, 'Missed_E1103'))
-    c = copy.deepcopy(b); c['act']['codes'] = ['E1103', 'E1300']; cans.append((c, 'Spurious_E1300'))
-    c = copy.deepcopy(b); c['act'] = {'status': 'panic', 'codes': []}; cans.append((c, 'NoPanic'))
-    g = next(r for r in recs if r['act']['status'] == 'ok' and r['fam'] == 'ids')
-    c = copy.deepcopy(g); c['act'] = {'status': 'err', 'codes': ['E0002']}; cans.append((c, 'RejectedClean'))
-    c = copy.deepcopy(g); c['act'] = {'status': 'err', 'codes': []}; cans.append((c, 'RejectionWithoutCode'))
-    c = copy.deepcopy(b); c['act']['codes'] = ['E0000', 'E1103']; cans.append((c, 'Unexplained_E0000'))
-    c = copy.deepcopy(g); c['act'] = {'status': 'undeserializable', 'codes': ['E0000']}; cans.append((c, 'Deserializable'))
+    can_skip = False
+    try:
+        b = next(r for r in recs if r['fam'] == 'windows' and r['act']['codes'] == ['E1103']
+                 and [(w['n'], w['s'] > w['e'] >= 0) for w in r['doc']['jobs'][0]['tasks'][0]['places'][0]['ws']] == [(2, True)])
+        c = copy.deepcopy(b); c['act'] = {'status': 'ok', 'codes': []}; cans.append((c, 'Missed_E1103'))
+        c = copy.deepcopy(b); c['act']['codes'] = ['E1103', 'E1300']; cans.append((c, 'Spurious_E1300'))
+        c = copy.deepcopy(b); c['act'] = {'status': 'panic', 'codes': []}; cans.append((c, 'NoPanic'))
+        g = next(r for r in recs if r['act']['status'] == 'ok' and r['fam'] == 'ids')
+        c = copy.deepcopy(g); c['act'] = {'status': 'err', 'codes': ['E0002']}; cans.append((c, 'RejectedClean'))
+        c = copy.deepcopy(g); c['act'] = {'status': 'err', 'codes': []}; cans.append((c, 'RejectionWithoutCode'))
+        c = copy.deepcopy(b); c['act']['codes'] = ['E0000', 'E1103']; cans.append((c, 'Unexplained_E0000'))
+        c = copy.deepcopy(g); c['act'] = {'status': 'undeserializable', 'codes': ['E0000']}; cans.append((c, 'Deserializable'))
+    except StopIteration:
+        can_skip = True          # no record to corrupt (the code under test answered nothing of that kind): judged below
     fj = os.path.join(d, 'judge.ndjson')
     common.write_ndjson(fj, recs + [c[0] for c in cans])
     jr = common.tlc('JudgeValidation', env={'RECS': fj}, workers=1, name=pid + '-judge', timeout=6000, xmx='8g')
@@ -126,6 +130,8 @@ def run(pid, tier):
         verdict.add('C10/%s/%s' % (name, q), 'document %s: reported %s %s, must %s, may %s; %s' % (r['id'], r['act']['status'], r['act']['codes'], must, may, (errors[i - 1] or '').split('\n')[0][:160]),
                     {'id': r['id'], 'abstract': r['doc'], 'problem': cases[i - 1]['problem'], 'matrices': cases[i - 1].get('matrices'), 'outcome': res[i - 1], 'must': must, 'may': may})
     rc = verdict.finish()
+    if can_skip and rc == 0:
+        raise ToolError('no base record for the vacuity canaries and no violation reported')
     by_fam = collections.Counter(r['fam'] for r in recs)
     cov = {'states': jr.distinct, 'transitions': jr.generated, 'traces_validated_against_impl': len(recs), 'evaluations': len(recs),
            'distinct_nontrivial': sum(1 for i in mm if mm[i][1]),
